@@ -86,6 +86,11 @@ def cases(tier):
     for la, lb in [(0, 0), (1, 0), (0, 1), (1, 1), (2, 1), (1, 2)]:
         out.append(Block(la=la, lb=lb, Ka=2, Kb=1, Ma=1, Mb=2))
         out.append(Block(la=la, lb=lb, Ka=1, Kb=2, Ma=2, Mb=1))
+    # equal l and equal column counts >= 2 on both sides (two different generalized shells; the centres are symbolic, so
+    # "on one atom" is a path of the same run whenever the code asks)
+    for l in (0, 1, 2):
+        out.append(Block(la=l, lb=l, Ka=1, Kb=2 if l < 2 else 1, Ma=2, Mb=2))
+    out.append(Public(ls=[1, 1, 0], types="csc", Ks=[1, 2, 1], Ms=[2, 2, 1], share={"1": 0}))
     out.append(Public(ls=[0, 1], types="cc", Ks=[2, 1], Ms=[1, 2]))
     out.append(Public(ls=[2], types="s", Ks=[1], Ms=[2]))
     out.append(Public(ls=[2, 1], types="sc", Ks=[1, 1], Ms=[1, 1]))
